@@ -227,6 +227,12 @@ def set_bibs(name):
             d[v] = k
             d[str(v)] = k
         BIBCODEC = (name, dict(_INT_BIBS), d)
+    elif name == 'blank':           # bibs that are falsy: the empty string, None, the number 0
+        enc_ = {'A': '', 'B': ' ', 'C': '00', 'D': '  '}          # one type, or the card export cannot sort its rows
+        d = {'': 'A', ' ': 'B', '00': 'C', '  ': 'D'}
+        BIBCODEC = (name, enc_, d)
+    elif name == 'none':            # a single athlete whose bib is None
+        BIBCODEC = (name, {'A': None}, {None: 'A', 'None': 'A'})
     else:
         raise HarnessError('unknown bib codec %r' % name)
 
@@ -580,6 +586,20 @@ def monitor_c08(comp, model):
         except Exception as e:
             out.append(('R2:card-round-trip-raises:%s' % type(e).__name__, None,
                         'from_matrix(to_matrix()) raised %r (cards %r)' % (e, obs['cards'])))
+        # the card exported with extra columns (personal details and a 'best height' column taken from the jumper), on decided competitions
+        if comp.state in hjmodel.TERMINAL + ('won',) and comp.jumpers:
+            keys = ['bib', 'first_name', 'team', 'highest_cleared']
+            try:
+                mx = comp.to_matrix(list(keys))
+                o4 = observable(H.from_matrix([list(r) for r in mx]))
+                for k in ('state', 'heights', 'best', 'place'):
+                    if o4[k] != obs[k]:
+                        out.append(('R2:card-round-trip-differs:%s:with-extra-columns' % k, None,
+                                    'export with columns %r / import differs in %s: %r vs %r (cards %r)' % (keys, k, obs[k], o4[k], obs['cards'])))
+                        break
+            except Exception as e:
+                out.append(('R2:card-round-trip-raises:%s:with-extra-columns' % type(e).__name__, None,
+                            'from_matrix(to_matrix(%r)) raised %r (cards %r)' % (keys, e, obs['cards'])))
     return out
 
 
